@@ -5,7 +5,8 @@
   never reads or writes, here ``BaseFullCache._store``) and allocate in a symbolic heap (ghost allocation: existing addresses keep
   their content).  Used to maintain the abstract store of a file-based cache next to the file it is coupled with.
 * ``del file[node]`` on the abstract cache file of ``HDF5FileSingleton`` (object kind "cfile" of plug_hdf): the node and all its
-  entries are removed (h5py: KeyError when the node does not exist).  Needs the generic ``delitem`` hook of models.py.
+  entries are removed (h5py: KeyError when the node does not exist); ``node in file``: the node exists.  Needs the generic ``delitem``
+  hook of models.py.
 * ``genericpath.exists(path)`` inside ``_hdf5_file_singleton``: an uninterpreted predicate of the path, implied by nothing; the model
   field ``exists`` of the "cfile#x" schema variant says whether the file exists (a file that does not exist has no node).
 * ``root.items()`` / ``file.get(node)`` / ``entry["hash"]`` / ``int(array(hash dataset)[0])`` for ``read_hashes`` (see contracts/c05_more.py).
@@ -138,6 +139,14 @@ class C05MoreModels:
             return it
         return NotImplemented
 
+    def contains(self, ex, cont, item, lineno):
+        # `hdf_node_path in file`: the node exists
+        o = ex.st.heap.get(cont.id) if isinstance(cont, Ref) else None
+        if _kind(o) == "cfile" and _in_cmod(ex):
+            n = o.fields["node"]
+            return n if isinstance(n, bool) else SV(ex.truth(n), TBool)
+        return NotImplemented
+
     def getitem(self, ex, cont, key, lineno):
         if not _in_cmod(ex) or not isinstance(cont, Ref):
             return NotImplemented
@@ -186,7 +195,8 @@ C05MoreModels.call_repo_model = _keep_open_model
 
 # ---- the file-handle protocol of keep_open (opt-in: `c05more_handle_protocol = True` on the contract under verification)
 # ghosts hc_keep (HDF5FileSingleton.__keep_open) and hc_open (``__file is not None``).  ``keep_open`` is
-#     self.__keep_open = True; yield; self.__keep_open = False; self.__close()      with   __close: assert self.__file is not None
+#     self.__keep_open = True; yield; self.__keep_open = False; if self.__file is not None: self.__close()
+# (__close: assert self.__file is not None); the function itself is verified against the contract KeepOpen.
 # What a file operation does to the handle is the ASSUMED clause `assumed:file-handle` of the storage contracts (contracts/c05_more.py).
 def _keep_open_model2(self, ex, fi, args, kwargs, lineno):
     if fi.qualname == CMOD + ".HDF5FileSingleton.keep_open":
@@ -217,9 +227,10 @@ def _exit_context(self, ex, node, exc):
     stack.pop()
     if exc is not None:
         return None  # (a generator-based context manager does not run the code after its yield when the body raised)
+    # summary of the exit half of keep_open = the VERIFIED contract KeepOpen of contracts/c05_more.py (checked on the real source, with
+    # __close's `assert self.__file is not None` as the precondition of __close): the flag is reset, an open handle is closed, and
+    # leaving with no handle (no file operation inside) is fine
     st.ghost_set("hc_keep", z3.BoolVal(False))
-    if not st.decide(st.ghost_get("hc_open", z3.BoolSort())):
-        raise _raise("AssertionError", getattr(node, "lineno", 0))  # __close(): assert self.__file is not None
     st.ghost_set("hc_open", z3.BoolVal(False))
     return None
 
